@@ -282,7 +282,12 @@ func (x *wexec) step(si int, s WStep) {
 		ref = append(ref, '\n')
 		x.implicitClosed()
 		m := x.newSent(websocket.TextMessage, ref, si, false)
-		x.call(si, 0, "WriteJSON", false, m, func() error { return c.WriteJSON(v) })
+		x.call(si, 0, "WriteJSON", false, m, func() error {
+			if si%2 == 1 {
+				return websocket.WriteJSON(c, v) // the deprecated package-level spelling
+			}
+			return c.WriteJSON(v)
+		})
 		x.endSent(m)
 	case "prepared":
 		data := s.Data.Bytes()
